@@ -263,6 +263,95 @@ theorem reach_run {c : Cfg} {payload : List α} {s : Sys α} (hr : Reach c paylo
     | none => simpa using ih hr hok'
     | some s' => simpa using ih (Reach.step a hr (hok a List.mem_cons_self) hs) hok'
 
+/-! ### a reader that stops early -/
+
+
+/-- reachable states when the reader may also stop early (close its end while running) -/
+inductive Reach2 (c : Cfg) (payload : List α) : Sys α → Prop
+  | init : Reach2 c payload (Sys.init payload)
+  | step {s s' : Sys α} (a : Act) :
+      Reach2 c payload s → a.ok = true → s.step c a = some s' → Reach2 c payload s'
+  | close {s s' : Sys α} : Reach2 c payload s → s.stepRClose = some s' → Reach2 c payload s'
+
+/-- the part of the invariant that survives an early close -/
+def ConsInv (c : Cfg) (payload : List α) (s : Sys α) : Prop :=
+  s.received ++ s.pipe.content ++ s.unsent = payload ∧ s.pipe.content.length ≤ c.pipeSize
+
+theorem cons_stepW {c : Cfg} {payload : List α} {s s' : Sys α} {k : Nat}
+    (hi : ConsInv c payload s) (h : s.stepW c k = some s') : ConsInv c payload s' := by
+  obtain ⟨cons, cap⟩ := hi
+  unfold Sys.stepW at h
+  split at h
+  · split at h
+    · simp only [Option.some.injEq] at h; subst h; exact ⟨cons, cap⟩
+    · split at h
+      · simp only [Option.some.injEq] at h; subst h; exact ⟨cons, cap⟩
+      · simp only [Option.some.injEq] at h; subst h; exact ⟨cons, cap⟩
+      · rename_i n p hwr
+        have ⟨_, hp, hn, hroom, _, _⟩ := write_wrote hwr
+        have hcons : s.received ++ (s.pipe.content ++ (s.unsent.take k).take n) ++ s.unsent.drop n = payload := by
+          rw [← cons]
+          simp only [List.append_assoc]
+          rw [take_take_drop s.unsent k n hn]
+        have hcap : (s.pipe.content ++ (s.unsent.take k).take n).length ≤ c.pipeSize := by
+          simp only [List.length_append, List.length_take]
+          unfold Fifo.room at hroom
+          omega
+        split at h <;> (simp only [Option.some.injEq] at h; subst h; subst hp)
+        · rename_i h0
+          subst h0
+          refine ⟨?_, by simpa using hcap⟩
+          simpa using cons
+        · exact ⟨hcons, hcap⟩
+  · split at h
+    · simp only [Option.some.injEq] at h; subst h; exact ⟨cons, cap⟩
+    · simp at h
+  · simp at h
+  · simp at h
+
+theorem cons_stepR {c : Cfg} {payload : List α} {s s' : Sys α} {n : Nat} (hn : 1 ≤ n)
+    (hi : ConsInv c payload s) (h : s.stepR n = some s') : ConsInv c payload s' := by
+  obtain ⟨cons, cap⟩ := hi
+  unfold Sys.stepR at h
+  split at h
+  · split at h
+    · simp only [Option.some.injEq] at h; subst h; exact ⟨cons, cap⟩
+    · rename_i bs p hrd
+      have ⟨hbs, hp, _⟩ := read_data hn hrd
+      split at h
+      · rename_i he
+        have hbs0 : bs = [] := by simpa using he
+        simp only [Option.some.injEq] at h
+        subst h; subst hp
+        have hd : s.pipe.content.drop n = s.pipe.content := by
+          have : s.pipe.content.take n = [] := by rw [← hbs, hbs0]
+          have h2 := List.take_append_drop n s.pipe.content
+          rw [this] at h2
+          simpa using h2
+        exact ⟨by simpa [Fifo.closeFd, hd] using cons, by simpa [Fifo.closeFd, hd] using cap⟩
+      · simp only [Option.some.injEq] at h
+        subst h; subst hp; subst hbs
+        refine ⟨?_, ?_⟩
+        · rw [← cons]; simp [List.append_assoc]
+        · simp only [List.length_drop]; omega
+  · split at h
+    · simp only [Option.some.injEq] at h; subst h; exact ⟨cons, cap⟩
+    · simp at h
+  · simp at h
+
+theorem cons_reach2 {c : Cfg} {payload : List α} {s : Sys α} (h : Reach2 c payload s) : ConsInv c payload s := by
+  induction h with
+  | init => exact ⟨by simp [Sys.init], by simp [Sys.init]⟩
+  | step a _ ha hs ih =>
+    cases a with
+    | w k => exact cons_stepW ih hs
+    | r n => exact cons_stepR (by simpa [Act.ok] using ha) ih hs
+  | close _ hs ih =>
+    unfold Sys.stepRClose at hs
+    split at hs
+    · simp only [Option.some.injEq] at hs; subst hs; exact ih
+    · simp at hs
+
 /-! ### trailing newlines -/
 
 theorem dropWhile_replicate_append [DecidableEq α] (nl : α) (k : Nat) (l : List α) :
